@@ -10,8 +10,9 @@
 -/
 import Nervus.Proofs.Where
 import Nervus.Proofs.PlanInst
+import Nervus.Proofs.WherePush
 namespace Nervus.Props.C19
-open Nervus Nervus.PlanOps Nervus.PlanInst
+open Nervus Nervus.PlanOps Nervus.PlanInst Nervus.WherePush
 
 section
 variable {χ ρ ν ε κ α : Type}
@@ -21,18 +22,20 @@ variable {χ ρ ν ε κ α : Type}
     the filter does with non-boolean values (`Q` arbitrary) -/
 theorem where_partition (S : Sem χ ρ ν ε κ α) (Q : Quirks) (notE isNullE : χ → χ)
     (hS : S.PredLawful LimEnv.unlimited.coll notE isNullE) (env : ρ) (p : χ) (rows : List ρ)
-    (hb : ∀ r ∈ rows, ∃ v, S.eval LimEnv.unlimited.coll p env r = .ok v ∧ (S.truth v).isBoolOrNull = true) :
+    (hb : ∀ r ∈ rows, ∃ v, S.eval LimEnv.unlimited.coll p env r = .ok v ∧ (S.truth v).isBoolOrNull = true ∧
+      S.park LimEnv.unlimited.coll p env r = none) :
     ∃ a b c, keep S Q env p rows = .ok a ∧ keep S Q env (notE p) rows = .ok b ∧
       keep S Q env (isNullE p) rows = .ok c ∧ (a ++ b ++ c).Perm rows := by
   induction rows with
   | nil => exact ⟨[], [], [], rfl, rfl, rfl, .nil⟩
   | cons r rows ih =>
     obtain ⟨a, b, c, ha, hb', hc, hperm⟩ := ih (fun r' h' => hb r' (List.mem_cons_of_mem _ h'))
-    obtain ⟨v, hv, hbool⟩ := hb r List.mem_cons_self
+    obtain ⟨v, hv, hbool, hpk⟩ := hb r List.mem_cons_self
     obtain ⟨w1, hw1, ht1⟩ := hS.not_ok p env r v hv
     obtain ⟨w2, hw2, ht2⟩ := hS.isNull_ok p env r v hv
-    rw [keep_cons_of_truth S Q env p r rows v hv, keep_cons_of_truth S Q env (notE p) r rows w1 hw1,
-      keep_cons_of_truth S Q env (isNullE p) r rows w2 hw2, ht1, ht2, ha, hb', hc]
+    rw [keep_cons_of_truth S Q env p r rows v hv hpk,
+      keep_cons_of_truth S Q env (notE p) r rows w1 hw1 (by rw [hS.not_park]; exact hpk),
+      keep_cons_of_truth S Q env (isNullE p) r rows w2 hw2 (by rw [hS.isNull_park]; exact hpk), ht1, ht2, ha, hb', hc]
     cases htv : S.truth v with
     | tt => exact ⟨r :: a, b, c, rfl, rfl, rfl, by simpa using hperm⟩
     | ff =>
@@ -53,15 +56,19 @@ theorem where_partition_of_success (S : Sem χ ρ ν ε κ α) (Q : Quirks) (hq 
     (rows a b c : List ρ) (ha : keep S Q env p rows = .ok a) (hb : keep S Q env (notE p) rows = .ok b)
     (hc : keep S Q env (isNullE p) rows = .ok c) : (a ++ b ++ c).Perm rows := by
   -- success of `WHERE p` means every row's predicate evaluated to a boolean or null
-  have hbool : ∀ r ∈ rows, ∃ v, S.eval LimEnv.unlimited.coll p env r = .ok v ∧ (S.truth v).isBoolOrNull = true := by
+  have hbool : ∀ r ∈ rows, ∃ v, S.eval LimEnv.unlimited.coll p env r = .ok v ∧ (S.truth v).isBoolOrNull = true ∧
+      S.park LimEnv.unlimited.coll p env r = none := by
     clear hb hc
     induction rows generalizing a with
     | nil => intro r h; cases h
     | cons r rows ih =>
       cases hv : S.eval LimEnv.unlimited.coll p env r with
-      | error e => rw [keep_cons_of_error S Q env p r rows e hv] at ha; cases ha
+      | error e => obtain ⟨e', he'⟩ := keep_cons_of_error S Q env p r rows e hv; rw [he'] at ha; cases ha
       | ok v =>
-        rw [keep_cons_of_truth S Q env p r rows v hv] at ha
+        cases hpk : S.park LimEnv.unlimited.coll p env r with
+        | some e => rw [keep_cons_of_park S Q env p r rows e hpk] at ha; cases ha
+        | none =>
+        rw [keep_cons_of_truth S Q env p r rows v hv hpk] at ha
         have key : (S.truth v).isBoolOrNull = true ∧ ∃ a', keep S Q env p rows = .ok a' := by
           cases htv : S.truth v with
           | tt =>
@@ -75,7 +82,7 @@ theorem where_partition_of_success (S : Sem χ ρ ν ε κ α) (Q : Quirks) (hq 
         obtain ⟨hb1, a', ha'⟩ := key
         intro r' hr'
         rcases List.mem_cons.1 hr' with rfl | hr'
-        · exact ⟨v, hv, hb1⟩
+        · exact ⟨v, hv, hb1, hpk⟩
         · exact ih a' ha' r' hr'
   obtain ⟨a', b', c', ha', hb', hc', hperm⟩ := where_partition S Q notE isNullE hS env p rows hbool
   rw [ha] at ha'; rw [hb] at hb'; rw [hc] at hc'
@@ -88,7 +95,8 @@ theorem where_partition_of_success (S : Sem χ ρ ν ε κ α) (Q : Quirks) (hq 
 theorem where_partition_plan [DecidableEq κ] (S : Sem χ ρ ν ε κ α) (Q : Quirks) (notE isNullE : χ → χ)
     (hS : S.PredLawful LimEnv.unlimited.coll notE isNullE) (params : ρ) (inp : Plan χ ρ ε α) (p : χ)
     (rows : List ρ) (hin : execute S Q .unlimited params inp = .ok rows)
-    (hb : ∀ r ∈ rows, ∃ v, S.eval LimEnv.unlimited.coll p params r = .ok v ∧ (S.truth v).isBoolOrNull = true) :
+    (hb : ∀ r ∈ rows, ∃ v, S.eval LimEnv.unlimited.coll p params r = .ok v ∧ (S.truth v).isBoolOrNull = true ∧
+      S.park LimEnv.unlimited.coll p params r = none) :
     ∃ a b c, execute S Q .unlimited params (.filter p inp) = .ok a ∧
       execute S Q .unlimited params (.filter (notE p) inp) = .ok b ∧
       execute S Q .unlimited params (.filter (isNullE p) inp) = .ok c ∧ (a ++ b ++ c).Perm rows := by
@@ -115,6 +123,75 @@ theorem C19_full {χ ρ ν ε κ α : Type} (S : Sem χ ρ ν ε κ α) (notE is
     (ha : keep S Quirks.current env p rows = .ok a) (hb : keep S Quirks.current env (notE p) rows = .ok b)
     (hc : keep S Quirks.current env (isNullE p) rows = .ok c) : (a ++ b ++ c).Perm rows :=
   where_partition_of_success S _ filter_repaired notE isNullE hS env p rows a b c ha hb hc
+
+/-! ### the planner side: WHERE pushdown after a MATCH (Model/WherePush.lean) -/
+
+/-- **filter placement preserves the predicate**: pushing the equality conjuncts of the WHERE down
+    (ONE value per (alias, property): a repeated equality overwrites the earlier one; inline pattern
+    maps overlaid) and keeping the FULL predicate in the final filter selects exactly the rows that
+    satisfy the inline pattern map and on which the WHERE is true — for every WHERE skeleton, every
+    inline map, every row, whatever the pushed-down filters do with rows on which their equality is
+    not true (`hsound`: they keep at least the rows on which it is true) -/
+theorem pushdown_preserves_predicate {χ κ ρ : Type} (S : WSem χ κ ρ)
+    (hsound : ∀ k c r, S.eqT k c r = .tt → S.pushKeeps k c r = true)
+    (w : W χ κ) (inline : PMap κ) (r : ρ) :
+    compiledKeeps S true w inline r ↔ (PushedKeeps S inline r ∧ tv S w r = .tt) := by
+  simp only [compiledKeeps, if_true]
+  constructor
+  · rintro ⟨hp, ht⟩
+    refine ⟨fun k c hk => hp k c ?_, ht⟩
+    simp [overlay, hk]
+  · rintro ⟨hi, ht⟩
+    refine ⟨fun k c hk => ?_, ht⟩
+    simp only [overlay] at hk
+    cases hik : inline k with
+    | some c' =>
+      rw [hik] at hk
+      simp only [Option.orElse] at hk
+      injection hk with hk; subst hk
+      exact hi k c' hik
+    | none =>
+      rw [hik] at hk
+      simp only [Option.orElse] at hk
+      rcases extract_entries w PMap.empty k c hk with h | h
+      · cases h
+      · exact hsound k c r (conj_true S w r ht k c h)
+
+/-- the working tree's final filter carries the full WHERE expression (regenerated flag) -/
+theorem where_filter_keeps_full : keepsFullCurrent = true := by decide
+
+/-- on the working tree -/
+theorem C19_pushdown {χ κ ρ : Type} (S : WSem χ κ ρ)
+    (hsound : ∀ k c r, S.eqT k c r = .tt → S.pushKeeps k c r = true)
+    (w : W χ κ) (inline : PMap κ) (r : ρ) :
+    compiledKeeps S keepsFullCurrent w inline r ↔ (PushedKeeps S inline r ∧ tv S w r = .tt) := by
+  rw [where_filter_keeps_full]; exact pushdown_preserves_predicate S hsound w inline r
+
+/-- rows are the value of `n.x`; `n.x = c` is true iff the value is `c` -/
+def xSem : WSem Unit Nat Nat where
+  eqT _ c r := if r = c then .tt else .ff
+  otherT _ _ := .null
+  pushKeeps _ c r := r == c
+
+/-- `WHERE n.x = 1 AND n.x = 2` -/
+def wTwoEq : W Unit Nat := .and (.eqProp ("n", "x") 1) (.eqProp ("n", "x") 2)
+
+/-- a final filter that strips the pushed-down conjuncts ("residual predicate") is wrong exactly
+    because the map keeps one value per key: the row with `x = 2` passes `WHERE n.x = 1 AND n.x = 2` -/
+theorem C19_counterexample_residual_filter :
+    compiledKeeps xSem false wTwoEq PMap.empty 2 ∧ tv xSem wTwoEq 2 ≠ .tt := by
+  refine ⟨⟨fun k c hk => ?_, ?_⟩, by decide⟩
+  · simp only [overlay, PMap.empty, Option.orElse, wTwoEq, extract, PMap.insert] at hk
+    split at hk
+    · injection hk with hk; subst hk; rfl
+    · cases hk
+  · simp [wTwoEq, residual, extract, PMap.insert, PMap.empty]
+
+/-- the same row and WHERE with the full predicate in the final filter: rejected -/
+example : ¬ compiledKeeps xSem true wTwoEq PMap.empty 2 := by
+  rintro ⟨_, h⟩
+  simp only [if_true] at h
+  exact absurd h (by decide)
 
 /-! ### witnesses on the concrete instance (replayed on the engine: corpus/plan/c19-*.ops) -/
 
